@@ -57,13 +57,28 @@ def check_case(ctx, r, full):
                 ctx.violation({"what": "backend-rejects-well-typed", "backend": nm, "fn": e.function_name}, {"case": r, "exc": str(e)})
             except Exception:  # noqa  other refusals are C12's business
                 pass
+        for nm, mk in ORM_VISITORS:
+            try:
+                mk().visit(node)
+            except ex.ArgumentTypeException as e:
+                ctx.violation({"what": "backend-rejects-well-typed", "backend": nm, "fn": e.function_name}, {"case": r, "exc": str(e)})
+            except Exception:  # noqa
+                pass
     if r["nops"] >= 2:
         ctx.nontriv(r["tree"])
         if gname is not None:
             ctx.sample({"tree": r["tree"], "type": want, "inferred": gname}, cap=5)
 
 
+ORM_VISITORS = []
+
+
 def run(ctx):
+    try:
+        import backends
+        ORM_VISITORS[:] = backends.orm_visitors()
+    except ImportError:
+        pass
     ctx.rule = ("well-typed expressions from the typed derivation machine MC_C18 (9 root types, every built-in "
                 "function with arguments of every admissible type, arithmetic, comparisons, lambdas) with <= MaxOps "
                 "function/operator nodes; non-trivial = distinct expression with >= 2 such nodes")
